@@ -10,6 +10,9 @@ def _parts(res):
 def plugin_nontrivial(tok, res):
     if tok[0] == "site":
         return res.startswith("L=") and "," in res
+    if tok[0] == "hist":      # a history in which at least three steps reached the plugins
+        w = res.partition(" | ")[2]
+        return res.startswith("H=") and sum(1 for x in w.split(";") if x != "-") >= 3
     if tok[0] == "sess":      # a session that stopped at least two proxies with a CloseProxy plugin listening
         return res.startswith("L=ok") and res.count("CloseProxy:") >= 2 and res.count("ok:") >= 2
     if tok[0] != "call":
@@ -19,6 +22,14 @@ def plugin_nontrivial(tok, res):
 
 
 def plugin_class(res):
+    if res.startswith("H="):
+        r, _, w = res.partition(" | ")
+        outs = r[2:].split(",")
+        logins = sum(1 for o in outs if o.startswith("ok:") and len(o) > 3)
+        return "H;steps=%d+;consulted-steps=%d+;refused=%s;user/work-conn=%s;hung-up=%s" % (
+            len(outs) // 4 * 4, sum(1 for x in w.split(";") if x != "-") // 3 * 3,
+            "y" if any(o in ("no", "no/-", "ok/no") for o in outs) else "n",
+            "y" if any("/" in o for o in outs) else "n", "y" if "closed" in outs else "n")
     if res.startswith("L=") and ";S=" in res:
         r, _, w = res.partition(" | ")
         n = w.count("CloseProxy:")
@@ -50,6 +61,11 @@ PROP = {
             "Frp.C15.notify_all_schedules", "Frp.C15.every_stop_reaches_every_plugin",
             "Frp.C15.notify_chain_order", "Frp.C15.notes_handler_independent",
             "Frp.C15.notifyHoldsOn_sound", "Frp.C15.model_notifyHoldsOn",
+            "Frp.C15.siteHoldsOn_sound", "Frp.C15.step_events_gated", "Frp.C15.run_events_gated",
+            "Frp.C15.site_proceeds_only_through_gate", "Frp.C15.site_every_occurrence", "Frp.C15.model_siteHoldsOn",
+            "Frp.C15.login_gated_every_kind", "Frp.C15.add_unique", "Frp.C15.effect_only_through_gate",
+            "Frp.C15.session_user_is_login_rewrite", "Frp.C15.proxy_name_is_newproxy_rewrite",
+            "Frp.C15.offered_carries_session_user",
             "Frp.ListW.Interleave.perm", "Frp.ListW.Interleave.sublist", "Frp.ListW.Interleave.sequential",
             "Frp.C15.errMsg_ne_nil", "Frp.C15.empty_error_only_from_empty_reason",
             "Frp.C15.refusal_reported_witness", "Frp.C15.refusal_reported", "Frp.C15.refusal_reported_partial",
@@ -63,9 +79,12 @@ PROP = {
                 "Manager methods; on chains of real httpPlugins additionally `site` (one proxy through every gated call site of a "
                 "real frps) and `sess` (one session of a real frps with 0..5 proxies over a small name pool: collisions, explicit "
                 "closes by literal / answered name, double closes, re-registration, then session end; plugins that fail always or "
-                "for some proxy names only); a case is non-trivial when at least two plugins were consulted or the operation was "
+                "for some proxy names only) and `hist` (a history on a real frps: several control connections, logins with an empty / "
+                "literal / earlier session's run id — live = re-login that replaces, closed before = stale —, behaviour flips of the "
+                "registered plugins between steps (accept, rewrite, partial rewrite, reject, content-dependent reject / failure, HTTP "
+                "error, reset, malformed), repeated NewProxy on new / used names, Ping, user + work connections, connection closes); a case is non-trivial when at least two plugins were consulted or the operation was "
                 "refused / panicked (call), the scenario got past the login (site), at least two proxies were stopped with a "
-                "CloseProxy plugin listening (sess); distinct = distinct (op line, result) pairs. op_distribution keys are "
+                "CloseProxy plugin listening (sess), at least three steps reached the plugins (hist); distinct = distinct (op line, result) pairs. op_distribution keys are "
                 "<line kind>:<result kind>/<number of Handle calls made>",
         "trusted": COMMON_TRUST + [
             "model Frp/Model/PluginChain.lean written by hand from pkg/plugin/server/{manager,http,plugin,types}.go; tied by the "
@@ -77,6 +96,13 @@ PROP = {
             "proxy.go handleUserTCPConnection) are tied by the `site` lines (scenario model in Frp/Engines/Plugin.lean `siteExpected`, "
             "built from the proved `gated`/`closeAll`; the scenario function itself carries no theorem); where the server may still "
             "refuse after the plugins passed (token check, proxy registration, visitor admission) the observed outcome is taken over",
+            "histories at the call sites are tied by the `hist` lines: the state machine replayed is the proved `PluginSite.step` "
+            "(Frp/Model/PluginSite.lean, written by hand from service.go handleConnection/RegisterControl/RegisterWorkConn, control.go "
+            "ControlManager/handleNewProxy/handlePing, proxy.go handleUserTCPConnection); per step the requests the plugin server received "
+            "and whether the peer saw the operation go on are judged by `C15.siteHoldsOn`; what the server decides apart from the plugins "
+            "(token check, proxy registration, visitor admission, the random run id) is taken over from the implementation; for Login the "
+            "model's second content member stands for the members other than the user (run id …): every scripted behaviour copies them all "
+            "or zeroes them all",
             "the close notifications of a whole session (control.go CloseProxy + worker: one goroutine per stopped proxy) are tied by the "
             "`sess` lines: bookkeeping and goroutines are the proved `SessP` (Frp/Model/PluginChain.lean), the CloseProxy requests the "
             "plugin server received are judged by `C15.notifyHoldsOn` (a permutation of: every stopped proxy x every registered plugin); "
@@ -93,7 +119,7 @@ META = {
         "engine": "lean+harness(plugin)",
         "design_ref": "DESIGN.md §6 C15",
         "technique": "Lean 4 proofs by induction over the plugin chain for arbitrary handler functions; differential correspondence with the real plugin.Manager and httpPlugin",
-        "text": "Proof: for every list of registered plugins (any supported-op sets, any handler functions that may depend on the content they are handed), every operation and content, the modelled manager method consults exactly the plugins registered for that operation, in registration order, each on the left-to-right composition of the earlier modifications, up to and including the first one that errors / rejects / returns unusable content, nobody after it; it returns ok iff every one of them passed, and then the content is the composition; transport error, non-200, unreadable or unparsable body make Handle fail and hence the operation is refused; CloseProxy notifies every registered plugin with the original content even when earlier ones fail; at the session level every proxy stopped by CloseProxy or by session end is notified exactly once, and with the chain attached (one notification goroutine per stopped proxy, modelled as the code starts them): for every session history, every chain and all handler functions, every order in which the session end ranges over its proxies and every interleaving of the goroutines, the Handle(CloseProxy) calls received are a permutation of {stopped proxy} x {plugin registered for CloseProxy} (nothing lost behind a failing plugin or a failed notification, nothing twice) and each notification calls the chain in order. Kernel-checked, axioms propext/Classical.choice/Quot.sound only. The hand-written model is tied to the code by replaying 14k (quick) generated operations per run (incl. ~650 one-proxy call-site scenarios and ~600 multi-proxy session scenarios against a real frps) on the real Manager (stubs + real httpPlugin over loopback HTTP) and on the model, with the Lean predicate evaluated on the implementation's own results.",
+        "text": "Proof: for every list of registered plugins (any supported-op sets, any handler functions that may depend on the content they are handed), every operation and content, the modelled manager method consults exactly the plugins registered for that operation, in registration order, each on the left-to-right composition of the earlier modifications, up to and including the first one that errors / rejects / returns unusable content, nobody after it; it returns ok iff every one of them passed, and then the content is the composition; transport error, non-200, unreadable or unparsable body make Handle fail and hence the operation is refused; CloseProxy notifies every registered plugin with the original content even when earlier ones fail; at the session level every proxy stopped by CloseProxy or by session end is notified exactly once, and with the chain attached (one notification goroutine per stopped proxy, modelled as the code starts them): for every session history, every chain and all handler functions, every order in which the session end ranges over its proxies and every interleaving of the goroutines, the Handle(CloseProxy) calls received are a permutation of {stopped proxy} x {plugin registered for CloseProxy} (nothing lost behind a failing plugin or a failed notification, nothing twice) and each notification calls the chain in order; at the call sites, for every HISTORY (several sessions; logins with an empty, unknown, live (re-login / replacement) or ended run id; the same operation any number of times; a plugin manager that may be another one at every step, i.e. behaviours that flip between operations): every visit of a call site is a run of the chain of that moment, the server goes on (session stored / replaced, proxy registered, pong, work connection pooled, user connection served) only if every plugin then registered for the operation was consulted in order and passed, the server state changes only through such a visit, every Control the server holds was admitted by a consenting Login chain and carries the user as rewritten by it (which is what every later request of the session offers the plugins), every proxy runs under the name as rewritten by a consenting NewProxy chain. Kernel-checked, axioms propext/Classical.choice/Quot.sound only. The hand-written model is tied to the code by replaying 14k (quick) generated operations per run (incl. ~550 one-proxy call-site scenarios, ~550 multi-proxy session scenarios and ~280 multi-session histories with re-logins and behaviour flips against a real frps) on the real Manager (stubs + real httpPlugin over loopback HTTP) and on the model, with the Lean predicate evaluated on the implementation's own results.",
         "known_finding": "C15-empty-reject-reason: reject with reject_reason \"\" is refused server-side but reported to the peer as success (LoginResp/NewProxyResp/Pong/StartWorkConn.Error empty). Minimal repair: in util.GenerateResponseErrorString fall back to the summary when err.Error() is empty (or give Manager a default reject reason).",
         "note": "Trusted: Lean kernel; the hand-written model of manager.go/http.go; the harness generators and its scripted HTTP server. Observations kept faithful in the model: a 200 reply without `unchange` (e.g. `{}` or `null`) is accepted and replaces the content by the zero value; `\"content\": null` with unchange=false panics in the manager's type assertion (the goroutine is not recovered at the call sites); handleUserTCPConnection discards the content returned by NewUserConn; NewUserConn is only hooked for listener-based proxies (tcp, stcp, https, tcpmux), not for http / udp.",
     }
